@@ -353,6 +353,41 @@ def nontrivial(case):
     return near
 
 
+def in_simulation(rep, tier, seed):
+    """The network-side check as the simulator uses it: behaviours of AcnSim.tla replayed on the single-phase
+    network 'agg' (and on constraint-free ones); _update_schedules must warn exactly when the specification's
+    Warning(ConsAgg, m) says the submitted schedule violates a constraint, naming the worst constraint, column and
+    excess."""
+    import json
+    from .props_acnsim import gen_behaviours, _kw_cycle, run_pool, _work_spec
+    n = 500 if tier == "quick" else 12000
+    bhvs, stats = gen_behaviours("AcnSim_gen", {"MaxCrash": "= 0", "Menu": "<- MenuC04"}, n, 160, seed + 5,
+                                 procs=2 if tier == "quick" else 8)
+    for st in stats:
+        rep.add_tlc(st, "AcnSim.tla behaviour generation for the in-simulation feasibility warning", "AcnSim_gen Menu=MenuC04")
+    jobs = [(b, _kw_cycle(i, seed, constraints=["agg", "agg", "none", "agg", "removed"][i % 5]), seed * 100003 + i)
+            for i, b in enumerate(bhvs)]
+    nwarn = 0
+    for (b, kw, _), d in zip(jobs, run_pool(_work_spec, jobs, 8)):
+        rep.replayed += 1
+        w = any(r["a"] == "update" and r.get("warnAgg", {}).get("warn") for r in b)
+        nwarn += bool(w and kw["constraints"] == "agg")
+        rep.count("acnsim-" + jhash(b), w)
+        if d is None:
+            continue
+        if d["owner"] == "C06":
+            rep.violation("C06:simulator:%s" % d["field"].split("@")[0].split("[")[0],
+                          "%s: spec %s, implementation %s (step %s)" % (d["field"], json.dumps(d["spec"])[:200],
+                                                                        json.dumps(d["impl"])[:200], d["step"]),
+                          {"kind": "acnsim", "behaviour": b, "variation": kw, "divergence": d})
+        else:
+            rep.foreign_divergence(d["owner"], {"divergence": d, "variation": kw, "behaviour": b})
+    if nwarn == 0:
+        raise RuntimeError("vacuous: no replayed behaviour submits an infeasible schedule")
+    rep.notes.append("%d AcnSim behaviours replayed for the simulator's feasibility warning (%d with at least one infeasible "
+                     "submission on the constrained network)" % (len(jobs), nwarn))
+
+
 def check_C06(tier, seed):
     rep = Report("C06", tier, seed)
     workers = 4 if tier == "quick" else 8
@@ -421,6 +456,7 @@ def check_C06(tier, seed):
         if d is not None:
             rep.violation(d["key"], "%s: spec %r, implementation %r" % (d["field"], d["spec"], d["impl"]),
                           {"kind": "case", "module": "props_feasibility", "fn": "replay_any", "case": sc, "mismatch": d})
+    in_simulation(rep, tier, seed)
     rep.exhaustive = True
     rep.notes.append("cases replayed: %(feasible)d feasible, %(infeasible)d infeasible, %(linear)d linear, %(multi)d with >= 2 periods" % stats)
     for s in samples:
